@@ -98,7 +98,7 @@ Definition tok_text (t : tok) : string :=
 Definition ws_choice := nat -> N.
 Definition mk_ws (seed : N) : ws_choice :=
   fun i => ((((seed + 1) * 2654435761 + (N.of_nat i + 7) * (N.of_nat i + 13) * 40503 + N.of_nat i * 977) / 64) mod 65536)%N.
-Definition ws_none : ws_choice := fun _ => 1%N.   (* no redundant parentheses, no optional blanks *)
+Definition ws_none : ws_choice := fun _ => 353%N.   (* no redundant parentheses, no optional blanks *)
 
 (* ------------------------------------------------------------------ literals *)
 Definition bin_level (o : binop) : nat :=
